@@ -9,7 +9,7 @@ use std::io::Read;
 
 use pgp::composed::{
     CleartextSignedMessage, DecryptionOptions, Deserializable, DetachedSignature, Esk, Message,
-    PlainSessionKey, SignedPublicKey, SignedSecretKey, TheRing, VerificationResult,
+    PlainSessionKey, PublicOrSecret, SignedPublicKey, SignedSecretKey, TheRing, VerificationResult,
 };
 use pgp::crypto::hash::HashAlgorithm;
 use pgp::crypto::sym::SymmetricKeyAlgorithm;
@@ -1816,6 +1816,525 @@ fn run_r6(ctx: &mut Ctx, keys: &[&K], k4: &K, k6: &K) {
 }
 
 // ---------------------------------------------------------------------------------------------
+// R6 (multi-signature family): the same certificate through every import path, when a component
+// carries MORE THAN ONE signature and exactly one of them is unacceptable.
+//
+// Certificates made by the library's own builder (and almost all fixtures) carry one signature
+// per component, so "every stored signature is judged" and "one particular signature is judged"
+// coincide on them, and two import paths that differ in *which* signatures they look at cannot
+// be told apart. Here every component of the certificate in turn (user id, user attribute,
+// direct-key signatures, key revocations, encryption subkey, signing subkey, subkey
+// revocations) receives n signatures with pairwise different creation times, in ascending and
+// in descending packet order; exactly one of them - the oldest, a middle one, the latest - is
+// made unacceptable for one reason of the rule table. The deciding oracle is agreement: all
+// import forms (secret / public; parsed / converted / re-serialised; binary / armored;
+// SignedSecretKey / SignedPublicKey / PublicOrSecret parser) must give the same
+// `verify_bindings()` verdict. The documented contract ("Verifies all stored bindings") is
+// judged in addition (switch below).
+
+/// `SignedPublicKey::verify_bindings` / `SignedSecretKey::verify_bindings` are documented as
+/// "Verifies all stored bindings", `SignedUser::verify_bindings` as "Verify all signatures": a
+/// certificate holding one unacceptable signature must be refused wherever that signature sits.
+/// Agreement between the import forms is judged regardless of this switch.
+const JUDGE_ALL_STORED_SIGNATURES: bool = true;
+
+#[derive(Clone, Copy, PartialEq, Eq, Debug, Hash)]
+enum MComp {
+    Uid,
+    UserAttr,
+    Direct,
+    KeyRev,
+    SubEnc,
+    SubSign,
+    SubRev,
+}
+
+impl MComp {
+    const ALL: [MComp; 7] = [MComp::Uid, MComp::UserAttr, MComp::Direct, MComp::KeyRev, MComp::SubEnc, MComp::SubSign, MComp::SubRev];
+    fn name(self) -> &'static str {
+        match self {
+            MComp::Uid => "uid-certifications",
+            MComp::UserAttr => "user-attribute-certifications",
+            MComp::Direct => "direct-key-signatures",
+            MComp::KeyRev => "key-revocations",
+            MComp::SubEnc => "enc-subkey-bindings",
+            MComp::SubSign => "sign-subkey-bindings",
+            MComp::SubRev => "subkey-binding+revocations",
+        }
+    }
+}
+
+#[derive(Clone, Copy, PartialEq, Eq, Debug, Hash)]
+enum MBad {
+    /// control: every signature is good
+    None,
+    /// signature value does not verify
+    Crypto,
+    /// the two digest check octets are wrong (signature value itself is right)
+    Left16,
+    /// an unknown hashed subpacket with the critical bit
+    CritUnknown,
+    /// v4 signature by a v6 key / v6 signature by a v4 key
+    Misversioned,
+    /// issuer fingerprint subpacket whose key version octet differs from the signature version
+    FpVersion,
+    // signing-capable subkey only:
+    NoBacksig,
+    BadBacksig,
+    BacksigMisversioned,
+    BacksigCritUnknown,
+}
+
+impl MBad {
+    const COMMON: [MBad; 5] = [MBad::Crypto, MBad::Left16, MBad::CritUnknown, MBad::Misversioned, MBad::FpVersion];
+    const BACKSIG: [MBad; 4] = [MBad::NoBacksig, MBad::BadBacksig, MBad::BacksigMisversioned, MBad::BacksigCritUnknown];
+    fn name(self) -> &'static str {
+        match self {
+            MBad::None => "control",
+            MBad::Crypto => "crypto-invalid",
+            MBad::Left16 => "digest-prefix-wrong",
+            MBad::CritUnknown => "critical-unknown-subpacket",
+            MBad::Misversioned => "version-misaligned",
+            MBad::FpVersion => "issuer-fp-version-mismatch",
+            MBad::NoBacksig => "no-backsig",
+            MBad::BadBacksig => "bad-backsig",
+            MBad::BacksigMisversioned => "backsig-version-misaligned",
+            MBad::BacksigCritUnknown => "backsig-critical-unknown-subpacket",
+        }
+    }
+}
+
+/// A user attribute packet body (one image subpacket, v1 JPEG header, 4 octets of image data).
+fn attr_body() -> Vec<u8> {
+    let mut sub = vec![1u8, 0x10, 0x00, 0x01, 0x01];
+    sub.extend_from_slice(&[0u8; 12]);
+    sub.extend_from_slice(&[0xFF, 0xD8, 0xFF, 0xD9]);
+    let mut b = vec![sub.len() as u8];
+    b.extend(sub);
+    b
+}
+
+fn other_version(v: u8) -> u8 {
+    if v == 6 {
+        4
+    } else {
+        6
+    }
+}
+
+/// Back signature (0x19) by the signing subkey `si`, created at `ctime`.
+fn m_backsig(k: &K, si: usize, ctime: u32, bad: MBad, unknown_id: u8) -> Result<Vec<u8>, String> {
+    let sub = &k.subs[si];
+    let aligned = if sub.v == 6 { 6 } else { 4 };
+    let sv = if bad == MBad::BacksigMisversioned { other_version(aligned) } else { aligned };
+    let mut hashed = sp(2, false, &ctime.to_be_bytes());
+    if sv == aligned {
+        let mut fpb = vec![sub.v];
+        fpb.extend_from_slice(&sub.fp);
+        hashed.extend(sp(33, false, &fpb));
+    }
+    if bad == MBad::BacksigCritUnknown {
+        hashed.extend(sp(unknown_id, true, &[1, 2, 3]));
+    }
+    let salt = if sv == 6 { salt_for(k.hash, (ctime & 0xFF) as u8) } else { vec![] };
+    let rs = tmpl(sv, 0x19, sub.alg, k.hash, hashed, vec![], salt);
+    let body = make_sig(&k.ssk.secret_subkeys[si].key, rs, &[&rfc::sig::key_hash_framing(&k.pbody), &rfc::sig::key_hash_framing(&sub.pub_body)])?;
+    if bad == MBad::BadBacksig {
+        return flip_sig_value(&body).ok_or_else(|| "flip".to_string());
+    }
+    Ok(body)
+}
+
+/// One self-signature of the primary key over component `comp`, created at `ctime`, of age rank
+/// `age` (0 = oldest), acceptable unless `bad` says otherwise.
+fn m_sig(k: &K, comp: MComp, bad: MBad, ctime: u32, age: usize, unknown_id: u8) -> Result<Vec<u8>, String> {
+    let aligned = if k.v == 6 { 6 } else { 4 };
+    let sv = if bad == MBad::Misversioned { other_version(aligned) } else { aligned };
+    let mut hashed = sp(2, false, &ctime.to_be_bytes());
+    match bad {
+        // no issuer subpackets: isolates the alignment rule (as in R2)
+        MBad::Misversioned => {}
+        MBad::FpVersion => {
+            // as in R4: a version octet (and length) of the other key version; the issuer key id
+            // keeps the signature attributable
+            let body = if sv == 4 {
+                let mut fp32 = k.fp.clone();
+                fp32.resize(32, 0xAB);
+                [vec![6u8], fp32].concat()
+            } else {
+                [vec![4u8], k.fp[..20].to_vec()].concat()
+            };
+            hashed.extend(sp(33, false, &body));
+            hashed.extend(sp(16, false, &k.kid));
+        }
+        _ => {
+            let mut fpb = vec![k.v];
+            fpb.extend_from_slice(&k.fp);
+            hashed.extend(sp(33, false, &fpb));
+        }
+    }
+    let (ei, si) = (k.enc_sub(), k.sign_sub());
+    let typ = match comp {
+        MComp::Uid | MComp::UserAttr => {
+            hashed.extend(sp(27, false, &[0x03]));
+            // several certification types beside each other
+            [0x10u8, 0x12, 0x13, 0x11][age % 4]
+        }
+        MComp::Direct => {
+            hashed.extend(sp(27, false, &[0x03]));
+            0x1F
+        }
+        MComp::KeyRev => {
+            hashed.extend(sp(29, false, &[0x00]));
+            0x20
+        }
+        MComp::SubEnc => {
+            hashed.extend(sp(27, false, &[0x0C]));
+            0x18
+        }
+        MComp::SubSign => {
+            hashed.extend(sp(27, false, &[0x02]));
+            let si = si.ok_or("no signing subkey")?;
+            let inner = match bad {
+                MBad::NoBacksig => None,
+                MBad::BadBacksig | MBad::BacksigMisversioned | MBad::BacksigCritUnknown => Some(m_backsig(k, si, ctime, bad, unknown_id)?),
+                _ => Some(m_backsig(k, si, ctime, MBad::None, unknown_id)?),
+            };
+            if let Some(b) = inner {
+                hashed.extend(sp(32, false, &b));
+            }
+            0x18
+        }
+        MComp::SubRev => {
+            hashed.extend(sp(29, false, &[0x00]));
+            0x28
+        }
+    };
+    if bad == MBad::CritUnknown {
+        hashed.extend(sp(unknown_id, true, &[1, 2, 3]));
+    }
+    let salt = if sv == 6 { salt_for(k.hash, typ ^ (ctime & 0xFF) as u8) } else { vec![] };
+    let rs = tmpl(sv, typ, k.alg, k.hash, hashed, vec![], salt);
+    let kf = rfc::sig::key_hash_framing(&k.pbody);
+    let body = match comp {
+        MComp::Uid => make_sig(&k.ssk.primary_key, rs, &[&kf, &rfc::sig::uid_hash_framing(sv, false, &k.uid)])?,
+        MComp::UserAttr => make_sig(&k.ssk.primary_key, rs, &[&kf, &rfc::sig::uid_hash_framing(sv, true, &attr_body())])?,
+        MComp::Direct | MComp::KeyRev => make_sig(&k.ssk.primary_key, rs, &[&kf])?,
+        MComp::SubEnc | MComp::SubRev => {
+            let i = ei.ok_or("no encryption subkey")?;
+            make_sig(&k.ssk.primary_key, rs, &[&kf, &rfc::sig::key_hash_framing(&k.subs[i].pub_body)])?
+        }
+        MComp::SubSign => {
+            let i = si.ok_or("no signing subkey")?;
+            make_sig(&k.ssk.primary_key, rs, &[&kf, &rfc::sig::key_hash_framing(&k.subs[i].pub_body)])?
+        }
+    };
+    match bad {
+        MBad::Crypto => flip_sig_value(&body).ok_or_else(|| "flip".to_string()),
+        MBad::Left16 => {
+            let mut rs = parse_sig(&body).map_err(|e| format!("reparse: {e}"))?;
+            rs.left16[0] ^= 0xFF;
+            Ok(rs.encode())
+        }
+        _ => Ok(body),
+    }
+}
+
+/// The TSK packets of `k` in which component `comp` carries the signatures `sigs` (in that order).
+fn m_assemble(k: &K, comp: MComp, sigs: &[Vec<u8>]) -> Result<Vec<Pk>, String> {
+    let base = tsk_packets(&k.ssk)?;
+    let run_after = |p: &[Pk], a: usize| -> usize { p[a + 1..].iter().take_while(|x| x.tag == 2).count() };
+    let nth = |p: &[Pk], tag: u8, n: usize| p.iter().enumerate().filter(|(_, x)| x.tag == tag).nth(n).map(|(i, _)| i);
+    let new: Vec<Pk> = sigs.iter().map(|b| Pk { tag: 2, body: b.clone() }).collect();
+    let mut p = base;
+    match comp {
+        MComp::Uid => {
+            let a = nth(&p, 13, 0).ok_or("layout: no user id")?;
+            let n = run_after(&p, a);
+            p.splice(a + 1..a + 1 + n, new);
+        }
+        MComp::UserAttr => {
+            // new user attribute packet with its certifications, after the user id's signatures
+            let a = nth(&p, 13, 0).ok_or("layout: no user id")?;
+            let n = run_after(&p, a);
+            let mut ins = vec![Pk { tag: 17, body: attr_body() }];
+            ins.extend(new);
+            p.splice(a + 1 + n..a + 1 + n, ins);
+        }
+        MComp::Direct => {
+            let n = run_after(&p, 0);
+            p.splice(1..1 + n, new);
+        }
+        MComp::KeyRev => {
+            // in front of the direct-key signatures (which are kept)
+            p.splice(1..1, new);
+        }
+        MComp::SubEnc | MComp::SubSign | MComp::SubRev => {
+            let i = if comp == MComp::SubSign { k.sign_sub() } else { k.enc_sub() }.ok_or("no such subkey")?;
+            let a = nth(&p, 7, i).ok_or("layout: subkey")?;
+            let n = run_after(&p, a);
+            p.splice(a + 1..a + 1 + n, new);
+        }
+    }
+    Ok(p)
+}
+
+fn first_of<T>(mut it: Box<dyn Iterator<Item = pgp::errors::Result<T>> + '_>) -> Result<T, String> {
+    match it.next() {
+        Some(Ok(k)) => Ok(k),
+        Some(Err(e)) => Err(format!("parse: {e}")),
+        None => Err("parse: no key".into()),
+    }
+}
+
+/// `verify_bindings()` of the certificate `pk` (TSK packets) through every import form
+/// (`full`), or through one form per implementation (secret parser, public parser, secret key
+/// holding public subkey packets, the parser of both kinds, the library's secret -> public
+/// conversion).
+fn m_forms(ctx: &mut Ctx, pk: &[Pk], full: bool) -> Vec<(String, V)> {
+    let tsk = ser(pk);
+    let mut forms: Vec<(String, V)> = vec![];
+    forms.push(("tsk-bytes".into(), tsk_verdict(&tsk)));
+    let tpk = to_tpk(pk).map(|t| ser(&t));
+    match &tpk {
+        Some(t) => forms.push(("tpk-reframed".into(), tpk_verdict(t))),
+        None => ctx.inconclusive("R6 multi: to_tpk"),
+    }
+    let mixed: Option<Vec<Pk>> = pk
+        .iter()
+        .map(|x| {
+            if x.tag == 7 {
+                let (_, n) = RefPub::parse_prefix(&x.body)?;
+                Some(Pk { tag: 14, body: x.body[..n].to_vec() })
+            } else {
+                Some(x.clone())
+            }
+        })
+        .collect();
+    if let Some(m) = mixed {
+        forms.push(("tsk-public-subkeys".into(), tsk_verdict(&ser(&m))));
+    }
+    // the parser that accepts both kinds
+    let pos = |b: &[u8]| -> V {
+        let k = PublicOrSecret::from_bytes_many(b).map_err(|e| format!("parse: {e}")).and_then(first_of)?;
+        k.verify_bindings().map_err(es)
+    };
+    if let Some(t) = &tpk {
+        forms.push(("tpk-public-or-secret".into(), pos(t)));
+    }
+    if full {
+        forms.push(("tsk-public-or-secret".into(), pos(&tsk)));
+        if let Some(t) = &tpk {
+            forms.push(("tpk-from_bytes_many".into(), SignedPublicKey::from_bytes_many(&t[..]).map_err(|e| format!("parse: {e}")).and_then(first_of).and_then(|k| k.verify_bindings().map_err(es))));
+        }
+        forms.push(("tsk-from_bytes_many".into(), SignedSecretKey::from_bytes_many(&tsk[..]).map_err(|e| format!("parse: {e}")).and_then(first_of).and_then(|k| k.verify_bindings().map_err(es))));
+        // armored by the reference
+        let a = rfc::armor::armor_encode("PGP PRIVATE KEY BLOCK", &[], &tsk, true, "\n");
+        forms.push(("tsk-ref-armored".into(), SignedSecretKey::from_string(&a).map_err(|e| format!("parse: {e}")).and_then(|(k, _)| k.verify_bindings().map_err(es))));
+        if let Some(t) = &tpk {
+            let a = rfc::armor::armor_encode("PGP PUBLIC KEY BLOCK", &[], t, true, "\r\n");
+            forms.push(("tpk-ref-armored".into(), SignedPublicKey::from_string(&a).map_err(|e| format!("parse: {e}")).and_then(|(k, _)| k.verify_bindings().map_err(es))));
+        }
+    }
+    // library conversions of the parsed secret key
+    match SignedSecretKey::from_bytes(&tsk[..]) {
+        Ok(s) => {
+            let p = s.to_public_key();
+            forms.push(("tpk-to_public_key".into(), p.verify_bindings().map_err(es)));
+            if full {
+                match p.to_bytes() {
+                    Ok(b) => forms.push(("tpk-to_public_key-bytes".into(), tpk_verdict(&b))),
+                    Err(e) => ctx.inconclusive(format!("R6 multi: cannot serialise public key: {e}")),
+                }
+                let p2: SignedPublicKey = s.clone().into();
+                forms.push(("tpk-from-secret".into(), p2.verify_bindings().map_err(es)));
+                match s.to_bytes() {
+                    Ok(b) => forms.push(("tsk-reserialised".into(), tsk_verdict(&b))),
+                    Err(e) => ctx.inconclusive(format!("R6 multi: cannot serialise secret key: {e}")),
+                }
+                let s2 = SignedSecretKey {
+                    primary_key: s.primary_key.clone(),
+                    details: s.details.clone(),
+                    public_subkeys: s.public_subkeys.clone(),
+                    secret_subkeys: s.secret_subkeys.clone(),
+                };
+                forms.push(("tsk-struct".into(), s2.verify_bindings().map_err(es)));
+                let p3 = SignedPublicKey { primary_key: p.primary_key.clone(), details: p.details.clone(), public_subkeys: p.public_subkeys.clone() };
+                forms.push(("tpk-struct".into(), p3.verify_bindings().map_err(es)));
+                if let Ok(a) = s.to_armored_string(Default::default()) {
+                    forms.push(("tsk-armored".into(), SignedSecretKey::from_string(&a).map_err(|e| format!("parse: {e}")).and_then(|(k, _)| k.verify_bindings().map_err(es))));
+                }
+                if let Ok(a) = p.to_armored_string(Default::default()) {
+                    forms.push(("tpk-armored".into(), SignedPublicKey::from_string(&a).map_err(|e| format!("parse: {e}")).and_then(|(k, _)| k.verify_bindings().map_err(es))));
+                }
+            }
+        }
+        Err(e) => forms.push(("tpk-to_public_key".into(), Err(format!("parse: {e}")))),
+    }
+    forms
+}
+
+fn run_r6_multi(ctx: &mut Ctx, keys: &[&K]) {
+    let thorough = !ctx.quick();
+    // ids the library's own parser keeps as opaque `Other` (= "unknown"), taken from a probe
+    let unknown_ids: Vec<u8> = {
+        let k = keys[0];
+        let sv = if k.v == 6 { 6 } else { 4 };
+        (0u8..128)
+            .filter(|id| {
+                let mut s = Scn::plain(sv);
+                s.extra = sp(*id, true, &[1, 2, 3]);
+                build_sig(k, &s, Kind::DocBin).ok().and_then(|b| classify_last(&b).ok()).is_some_and(|(c, _)| c == SpClass::Other)
+            })
+            .collect()
+    };
+    if unknown_ids.is_empty() {
+        ctx.inconclusive("R6 multi: no subpacket id is classified unknown by the library's parser");
+        return;
+    }
+    let counts: &[usize] = if thorough { &[2, 3, 4] } else { &[3] };
+    let mut group = 0u64;
+    for (ki, k) in keys.iter().enumerate() {
+        // quick: every import form on the first v4 and the first v6 key, one form per
+        // implementation on the other algorithms
+        let full = thorough || ki < 2;
+        if k.enc_sub().is_none() || k.sign_sub().is_none() {
+            ctx.inconclusive("R6 multi: key lacks subkeys");
+            continue;
+        }
+        for comp in MComp::ALL {
+            let mut bads = vec![MBad::None];
+            bads.extend(MBad::COMMON);
+            if comp == MComp::SubSign {
+                bads.extend(MBad::BACKSIG);
+            }
+            for bad in bads {
+                group += 1;
+                // (all random choices are drawn whether or not the case is this shard's)
+                let mut rng = ctx.rng("r6m", group);
+                for &n in counts {
+                    // pairwise different creation times, oldest first
+                    let mut times = vec![];
+                    let bind_time = CTIME + rng.next_u32() % 100_000;
+                    let mut t = bind_time + 1 + rng.next_u32() % 100_000;
+                    for _ in 0..n {
+                        times.push(t);
+                        t += 1 + rng.next_u32() % 1_000_000;
+                    }
+                    let positions: Vec<Option<usize>> = if bad == MBad::None { vec![None] } else { (0..n).map(Some).collect() };
+                    for bad_at in positions {
+                        let unknown_id = unknown_ids[(rng.next_u32() as usize) % unknown_ids.len()];
+                        if !ctx.mine() {
+                            continue;
+                        }
+                        describe_case(&format!("R6 multi {} {} {} n={n} at={bad_at:?}", k.name, comp.name(), bad.name()));
+                        let built: Result<Vec<Vec<u8>>, String> = (0..n).map(|age| m_sig(k, comp, if Some(age) == bad_at { bad } else { MBad::None }, times[age], age, unknown_id)).collect();
+                        // subkey revocations stand beside a binding that is older than all of them
+                        let built = built.and_then(|mut s| {
+                            if comp == MComp::SubRev {
+                                s.insert(0, m_sig(k, MComp::SubEnc, MBad::None, bind_time, 0, unknown_id)?);
+                            }
+                            Ok(s)
+                        });
+                        let sigs = match built {
+                            Ok(s) => s,
+                            Err(e) => {
+                                ctx.inconclusive(format!("R6 multi: cannot build {} {}: {e}", comp.name(), bad.name()));
+                                continue;
+                            }
+                        };
+                        let pos_name = match bad_at {
+                            None => "none".to_string(),
+                            Some(0) => "oldest".to_string(),
+                            Some(i) if i + 1 == n => "latest".to_string(),
+                            Some(i) => format!("middle{i}"),
+                        };
+                        for descending in [false, true] {
+                            let ordered: Vec<Vec<u8>> = if descending { sigs.iter().rev().cloned().collect() } else { sigs.clone() };
+                            let pk = match m_assemble(k, comp, &ordered) {
+                                Ok(p) => p,
+                                Err(e) => {
+                                    ctx.inconclusive(format!("R6 multi: {e}"));
+                                    continue;
+                                }
+                            };
+                            let order = if descending { "newest-first" } else { "oldest-first" };
+                            let forms = m_forms(ctx, &pk, full);
+                            let cell = format!("{}|{}|n{n}|{pos_name}|{order}", comp.name(), bad.name());
+                            ctx.seen("R6m.cells", cell.clone());
+                            ctx.seen("R6m.components", comp.name());
+                            ctx.seen("R6m.reasons", bad.name());
+                            ctx.cover(&("R6m", &cell, &k.name));
+                            let tsk = ser(&pk);
+                            if bad == MBad::CritUnknown && bad_at == Some(0) && !descending {
+                                ctx.sample(json!({"rule": "R6-multi", "cell": cell, "key": k.name, "tsk": hexs(&tsk)}));
+                            }
+                            let mut acc: Vec<&str> = vec![];
+                            let mut rej: Vec<String> = vec![];
+                            for (form, v) in &forms {
+                                ctx.eval();
+                                ctx.seen("R6m.forms", form.clone());
+                                match v {
+                                    Ok(()) => acc.push(form.as_str()),
+                                    Err(e) => rej.push(format!("{form}: {}", e.chars().take(60).collect::<String>())),
+                                }
+                            }
+                            let replay = json!({"rule": "R6-multi", "component": comp.name(), "reason": bad.name(), "signatures": n, "unacceptable": pos_name, "order": order,
+                                "unknown_id": unknown_id, "key": k.name, "accepted_by": acc, "rejected_by": rej, "tsk": hexs(&tsk)});
+                            if !acc.is_empty() && !rej.is_empty() {
+                                // the TSK that carries public subkey packets is of neither kind
+                                let side = |f: &str| if f.starts_with("tsk-public-subkeys") { None } else { Some(f.starts_with("tpk")) };
+                                let a: Vec<bool> = acc.iter().filter_map(|f| side(f)).collect();
+                                let r: Vec<bool> = rej.iter().filter_map(|f| side(f)).collect();
+                                let split_by_kind = !a.is_empty() && !r.is_empty() && a.iter().all(|x| *x == a[0]) && r.iter().all(|x| *x != a[0]);
+                                let symptom = if split_by_kind { "public-vs-secret-disagree" } else { "import-forms-disagree" };
+                                ctx.violation(
+                                    format!("C15/R6/multi-sig/{}/{}/{symptom}", comp.name(), bad.name()),
+                                    format!(
+                                        "certificate of {} whose {} hold {n} signatures ({order}), the {pos_name} one {}: verify_bindings() accepted by [{}] but refused by [{}]",
+                                        k.name,
+                                        comp.name(),
+                                        bad.name(),
+                                        acc.join(", "),
+                                        rej.join("; ")
+                                    ),
+                                    replay.clone(),
+                                );
+                            }
+                            if bad == MBad::None {
+                                if !rej.is_empty() {
+                                    ctx.violation(
+                                        format!("C15/R6/multi-sig/{}/control/rejected-unexpectedly", comp.name()),
+                                        format!("certificate of {} whose {} hold {n} valid signatures ({order}) refused: [{}]", k.name, comp.name(), rej.join("; ")),
+                                        replay,
+                                    );
+                                }
+                            } else if !acc.is_empty() {
+                                if JUDGE_ALL_STORED_SIGNATURES {
+                                    ctx.violation(
+                                        format!("C15/R6/multi-sig/{}/{}/accepted", comp.name(), bad.name()),
+                                        format!(
+                                            "certificate of {} whose {} hold {n} signatures ({order}), the {pos_name} one {}: verify_bindings() (\"verifies all stored bindings\") accepted by [{}]",
+                                            k.name,
+                                            comp.name(),
+                                            bad.name(),
+                                            acc.join(", ")
+                                        ),
+                                        replay,
+                                    );
+                                } else {
+                                    ctx.tally(&format!("R6m.advisory.accepted.{}.{pos_name}", comp.name()), 1);
+                                }
+                            }
+                        }
+                    }
+                }
+            }
+        }
+    }
+}
+
+// ---------------------------------------------------------------------------------------------
 
 /// R2 on the third-party certification path: the version-alignment rule concerns the *signer* of a
 /// certification, whatever the version of the certified key. Signer and signee of every version
@@ -1964,4 +2483,6 @@ pub fn run(ctx: &mut Ctx) {
     lap(ctx, "R4");
     run_r6(ctx, &refs, k4, k6);
     lap(ctx, "R6");
+    run_r6_multi(ctx, &refs);
+    lap(ctx, "R6m");
 }
